@@ -810,6 +810,7 @@ TOP:
 				ea = append(ea, resWarn(field.line, field.col, "%s", err))
 				break
 			}
+			verifPoint("rr_call", fd)
 			mva := method.Call(args)
 			switch len(mva) {
 			case 1:
